@@ -38,9 +38,10 @@ type EBinary struct {
 	X, Y Expr
 }
 type EQuant struct {
-	Forall bool
-	Vars   []QVar
-	Body   Expr
+	Forall   bool
+	Vars     []QVar
+	Triggers []Expr // optional: forall k int :: {t1, t2} body
+	Body     Expr
 }
 type QVar struct{ Name, Type string }
 
@@ -272,11 +273,26 @@ func (p *exprParser) parseUnary() (Expr, error) {
 		if err := p.expectOp("::"); err != nil {
 			return nil, err
 		}
+		var trig []Expr
+		if p.isOp("{") {
+			p.pos++
+			for !p.isOp("}") {
+				te, err := p.parseIff()
+				if err != nil {
+					return nil, err
+				}
+				trig = append(trig, te)
+				if p.isOp(",") {
+					p.pos++
+				}
+			}
+			p.pos++
+		}
 		body, err := p.parseIff()
 		if err != nil {
 			return nil, err
 		}
-		return EQuant{t.text == "forall", vars, body}, nil
+		return EQuant{t.text == "forall", vars, trig, body}, nil
 	}
 	return p.parsePostfix()
 }
